@@ -115,5 +115,6 @@ CheckDeriveCase(c) ==
          /\ c.got.k = c.want.k => Verdict(id, "equals scipy's result with the same keywords", c.got.v = c.want.v)
     [] c.ev = "raises" ->
          Verdict(id, "must-raise", c.res.k = "exc")
+    [] c.ev = "frame" -> Verdict(id, c.what, c.before = c.after)
     [] OTHER -> Verdict(id, "unknown-event", FALSE)
 =============================================================================
